@@ -9,6 +9,8 @@ CONSTANTS
   SaveAsSet = {}
   Modes = {}
   MayFail = FALSE
+  PoolSet = {FALSE}
+  AssembleMode = "index"
   MaxFaults = 0
 POSTCONDITION Post
 CHECK_DEADLOCK FALSE
